@@ -24,7 +24,7 @@ EXPLANATION = (
 )
 BOUNDS = {
     "quick": dict(labels="2..3", histories="twice, reconf, renodes, engine2, subset, stale (<= 6 engine calls); all permutations of <= 3 labels", value_box="positions in [-20,130], widths in (0,80], spacing in [0,10]; bounds (0,100) and (None,100)"),
-    "thorough": dict(labels="1..4 (4: twice / permutations of the overlap algorithm)", grid="bounds {(0,100),(None,100),(0,60)}, density {0.85,0.5}, stubWidth {1,5}"),
+    "thorough": dict(labels="1..3, 4 for compute-twice with the overlap algorithm", grid="bounds {(0,100),(None,100),(0,60)}, density {0.85,0.5}, stubWidth {1,5}"),
 }
 OUTSIDE = ["more than 4 labels / 6 engine calls", "labels sharing a data position with different widths (their order follows the input order, by the statement)"]
 ASSUMPTIONS = [
@@ -42,9 +42,10 @@ def configs(tier):
         c += F([3], algs=("overlap", "simple"), bounds=((0, 100),), hists=hs, shards=4)
         perm_ns = [2, 3]
     else:
-        c = F([1, 2, 3], bounds=((0, 100), (None, 100), (0, 60)), dens=(0.85, 0.5), stubws=(1, 5), hists=hs, shards=2)
+        c = F([1, 2], bounds=((0, 100), (None, 100), (0, 60)), dens=(0.85, 0.5), stubws=(1, 5), hists=hs)
+        c += F([3], algs=("overlap", "simple"), bounds=((0, 100), (0, 60)), hists=hs, shards=4)
         c += F([4], algs=("overlap",), bounds=((0, 100),), hists=("twice",), shards=16)
-        perm_ns = [2, 3, 4]
+        perm_ns = [2, 3]
     for n in perm_ns:
         for alg in ("overlap", "simple", "none"):
             for perm in itertools.permutations(range(n)):
